@@ -1137,6 +1137,9 @@ class Evaluator:
             if isinstance(op, ast.Sub):
                 return OSet(x for x in a if not self.contains(b, x, where))
             return OSet([x for x in a if not self.contains(b, x, where)] + [x for x in b if not self.contains(a, x, where)])
+        if isinstance(op, (ast.BitOr, ast.BitAnd, ast.Sub, ast.BitXor)) and isinstance(a, frozenset) and isinstance(b, frozenset):
+            # sets of plain strings (literal sets): Python's own operators are the semantics
+            return {ast.BitOr: a | b, ast.BitAnd: a & b, ast.Sub: a - b, ast.BitXor: a ^ b}[type(op)]
         raise AnalysisError(f"absint: operator {type(op).__name__} on {show(a)} and {show(b)} at {where}")
 
     def compare(self, op, a, b, where) -> bool:
